@@ -221,7 +221,7 @@ def drive(ctx, binary, script_path, trace_path, shared=False, stutter=0.2, frame
     return json.loads(p.stdout.strip().splitlines()[-1])
 
 
-def confirm(ctx, binary, script, check):
+def confirm(ctx, binary, script, check, shared=False):
     """Re-execute one behaviour on the real code (no stutter: the script already contains the
     untracked frames) and validate it in property mode. True if the violation reproduces."""
     sp = os.path.join(ctx.scratch, "confirm.script")
@@ -229,14 +229,14 @@ def confirm(ctx, binary, script, check):
     with open(sp, "w") as f:
         for a in script:
             f.write(json.dumps(a) + "\n")
-    st = drive(ctx, binary, sp, tp, stutter=0)
+    st = drive(ctx, binary, sp, tp, stutter=0, shared=shared)
     if st.get("panics"):
         return True, "panic"
     v, _ = validate(ctx, tp, "P", check, timeout=300)
     return v[0] == "property", v
 
 
-def check_traces(ctx, binary, trace_path, check, label):
+def check_traces(ctx, binary, trace_path, check, label, shared=False):
     """Validate one trace file for the properties in `check`. Reports violations through ctx.
     Returns dict with counts."""
     res = {"label": label, "lines": 0, "mechanism_conformant": True, "drift_line": None}
@@ -271,12 +271,12 @@ def check_traces(ctx, binary, trace_path, check, label):
     if v[0] == "property":
         line, which = v[1], v[2]
         script = behaviour_at(trace_path, line)
-        ok, info = confirm(ctx, binary, script, check)
+        ok, info = confirm(ctx, binary, script, check, shared=shared)
         if not ok:
             raise vlib.InfraError("property-level failure %s at line %d did not reproduce (%s)" % (which, line, info))
         last = script[-1]
         ctx.report("%s:%s" % (which, last.get("a")), "real session contradicts %s after step %s" % (which, json.dumps(last)),
-                   {"script": script, "failed": which})
+                   {"script": script, "failed": which, "shared": shared})
         res["validated_lines"] = line - 1
         return res
     raise vlib.InfraError("unexpected validation verdict %s" % (v,))
@@ -286,7 +286,7 @@ def replay(ctx, path, check):
     obj = json.load(open(path))
     script = obj["replay"]["script"]
     binary = vlib.go_build(ctx, "hostsdrv")
-    ok, info = confirm(ctx, binary, script, check)
+    ok, info = confirm(ctx, binary, script, check, shared=obj["replay"].get("shared", False))
     if ok:
         print("VIOLATION property=%s replay=%s" % (ctx.pid, path))
         return 1
@@ -294,8 +294,10 @@ def replay(ctx, path, check):
     return 0
 
 
-def run_family(ctx, check, modes):
-    """The whole pipeline for the properties in `check` (subset of C04 C05 C06)."""
+def run_family(ctx, check, modes, shared=False):
+    """The whole pipeline for the properties in `check` (subset of C04 C05 C06).
+    shared=True delivers every packet through one receive buffer that is overwritten after each
+    completed step (legitimate use of the zero-copy API; C10 shows both modes give the same transcript)."""
     quick = ctx.quick
     binary = vlib.go_build(ctx, "hostsdrv")
     rng = random.Random(ctx.seed)
@@ -329,8 +331,8 @@ def run_family(ctx, check, modes):
         sp = os.path.join(ctx.scratch, label + ".script")
         tp = os.path.join(ctx.scratch, label + ".trace")
         write_script(sp, hs)
-        st = drive(ctx, binary, sp, tp)
-        res = check_traces(ctx, binary, tp, check, label)
+        st = drive(ctx, binary, sp, tp, shared=shared)
+        res = check_traces(ctx, binary, tp, check, label, shared=shared)
         res.update(st)
         cov.setdefault("runs", []).append(res)
         total_lines += res["lines"]
@@ -350,7 +352,7 @@ def run_family(ctx, check, modes):
         "evaluations": nbeh, "distinct_nontrivial": len(distinct),
         "rule": "one case = one action history executed on a real Session and validated line by line by TLC "
                 "against spec/HostsTrace.tla; distinct = distinct action sequences of length >= 2",
-        "samples": samples[:4], "drift": drift,
+        "samples": samples[:4], "drift": drift, "shared_receive_buffer": shared,
         "exhaustive": False,
     })
     ctx.assumptions += [
